@@ -13,7 +13,7 @@ Reads the AST of the sources (never imports them) and writes `lean/Tranp/Generat
 
 Anything else is a TranslateError (the tie is broken, never a silent default):
   an instance attribute the model does not know, class-level state, `setattr`/`__dict__` on self, an unknown method of the
-  emitter, a mutation through an unknown path, a handler `on_*` with a `next` parameter (middleware chaining is not
+  emitter, a mutation through an unknown path, a handler `on_*` that catches the exception of `next()` (chaining itself is
   modelled), and any change of the normalised source of a modelled function against `c09_modelled_source.json`
   (re-audit the model, then `python -m translate.gen_procedure_state --audit`).
 """
@@ -213,7 +213,10 @@ def check_no_next_handlers() -> int:
 				if isinstance(node, ast.FunctionDef) and node.name.startswith('on_'):
 					n += 1
 					if any(a.arg == 'next' for a in [*node.args.args, *node.args.kwonlyargs]):
-						raise TranslateError(f'{os.path.relpath(path, REPO)}:{node.lineno}: handler {node.name} takes `next` (middleware chaining is not modelled)')
+						# chaining is modelled (Model/ProcedureHistory.composeCB) — except catching the exception of next()
+						for t in ast.walk(node):
+							if isinstance(t, ast.Try) and any(isinstance(c, ast.Call) and isinstance(c.func, ast.Name) and c.func.id == 'next' for b in t.body for c in ast.walk(b)):
+								raise TranslateError(f'{os.path.relpath(path, REPO)}:{t.lineno}: handler {node.name} catches the exception of next() (not modelled)')
 	return n
 
 
@@ -229,7 +232,7 @@ def render(state: dict[str, Any], handlers: int, functions: list[str]) -> str:
 		f'  GENERATED by translate/gen_procedure_state.py from {PROCEDURE} — do not edit.',
 		'  Every attribute of a `Procedure` instance with the methods that assign or mutate it; class-level state;',
 		'  the sources of the list length in `__make_event` and of the flattening in `__exec_impl`.',
-		f'  {len(functions)} modelled functions are pinned to their audited source text; {handlers} `on_*` handlers of tranp take no `next`.',
+		f'  {len(functions)} modelled functions are pinned to their audited source text; {handlers} `on_*` handlers of tranp scanned (none catches the exception of `next()`).',
 		'-/',
 		'import Tranp.Str',
 		'',
